@@ -1,4 +1,4 @@
-//@ needs specs errors stdspecs lebytes anchor_shim state_core authority position_rules managers bit_math swap_handlers(stub) handlers_small
+//@ needs specs errors stdspecs lebytes anchor_shim state_core authority position_rules managers bit_math swap_handlers(stub) handlers_small tick_math_abs
 // Handler layer of the small Anchor instructions: lock / close position, fee and protocol-fee collection, reward emissions.
 // The account wrappers are the shims of fragment swap_handlers; every #[account(..)] attribute is dropped and NOT checked.
 pub mod anchor_handlers {
@@ -8,7 +8,11 @@ use crate::specs::*;
 use crate::anchor_shim::{Pubkey, Error, Result, err, ax_qmark_anchor};
 use crate::authority::{authority_rule, copt, verify_position_authority, verify_position_authority_interface, InterfaceAccount, TokenAccount, TokenAccountInterface, Signer, AccountInfo};
 use crate::state_core::{Whirlpool, WhirlpoolRewardInfo, Position, NUM_REWARDS};
-use crate::position_rules::{LockConfig, LockType, LockTypeLabel};
+use crate::position_rules::{LockConfig, LockType, LockTypeLabel, PositionBundle, range_valid, bundle_open};
+use crate::handlers_small::{resolve_one_sided_position_ticks, one_sided_spec};
+use crate::authority::verify_position_bundle_authority;
+#[allow(unused_imports)]
+use crate::tick_math::*;
 use crate::swap_handlers::{Context, Account, Program, Token, UncheckedAccount, Clock, ClockData, now_unix, to_timestamp_u64, moved, transfer_from_vault_to_owner, Mint};
 use crate::authority::is_locked_position;
 use crate::handlers_small::calculate_collect_reward;
@@ -120,5 +124,57 @@ pub open spec fn set_emissions_post(w0: Whirlpool, w1: Whirlpool, vault_amount: 
             && (forall|k: int| 0 <= k < 3 && k != reward_index ==> final(ctx.accounts).position.data.reward_infos[k] == old(ctx.accounts).position.data.reward_infos[k])
             && final(ctx.accounts).position.data.liquidity == old(ctx.accounts).position.data.liquidity
             && final(ctx.accounts).position.data.fee_owed_a == old(ctx.accounts).position.data.fee_owed_a && final(ctx.accounts).position.data.fee_owed_b == old(ctx.accounts).position.data.fee_owed_b }), //# C11
+//@ end
+
+// ------------------------------------------------------------------ open_position / open_bundled_position
+//@ assume open-position shims: Whirlpool::is_position_with_token_extensions_required reads an extension segment (uninterpreted predicate of the pool); collect_rent_for_ticks_in_position (system transfer) and mint_position_token_and_remove_authority (mint one token, then remove the mint authority: two token CPIs) are external stubs, the latter recording minted_one_and_sealed(position mint, token account); Sysvar / AssociatedToken / OpenPositionBumps are opaque
+pub struct Sysvar<'info, T> { pub p: core::marker::PhantomData<&'info T> }
+pub struct Rent {}
+pub struct AssociatedToken {}
+pub mod state { pub struct OpenPositionBumps { pub position: u8 } }
+pub uninterp spec fn ext_required(w: Whirlpool) -> bool;
+pub trait WhirlpoolExt { fn is_position_with_token_extensions_required(&self) -> (r: bool); }
+impl WhirlpoolExt for Whirlpool {
+    #[verifier::external_body]
+    fn is_position_with_token_extensions_required(&self) -> (r: bool) ensures r == ext_required(*self) { unimplemented!() }
+}
+#[verifier::external_body]
+pub fn collect_rent_for_ticks_in_position<'info>(funder: &Signer<'info>, position: &Account<'info, Position>, system_program: &Program<'info, System>) -> (r: Result<()>) { unimplemented!() }
+pub uninterp spec fn minted_one_and_sealed(mint: Pubkey, token_account: Pubkey) -> bool;
+#[verifier::external_body]
+pub fn mint_position_token_and_remove_authority<'info>(whirlpool: &Account<'info, Whirlpool>, position_mint: &Account<'info, Mint>, position_token_account: &Account<'info, TokenAccount>, token_program: &Program<'info, Token>) -> (r: Result<()>)
+    ensures r is Ok ==> minted_one_and_sealed(position_mint.k, position_token_account.k) { unimplemented!() }
+//@ struct events.rs PositionOpened
+pub uninterp spec fn position_opened_emitted(e: PositionOpened) -> bool;
+#[verifier::external_body]
+pub fn emit_position_opened(e: PositionOpened) ensures position_opened_emitted(e) { unimplemented!() }
+/// C18: the stored range is the requested one with a sentinel bound derived from the pool's CURRENT SQRT-PRICE (one_sided_spec), it is a valid range of the
+/// pool (lower < upper on usable ticks, only the full range on full-range-only pools), and the position names the pool and its mint
+pub open spec fn opened_ok(w: Account<'_, Whirlpool>, mint: Pubkey, lo_in: i32, hi_in: i32, p1: Position) -> bool {
+    &&& one_sided_spec(lo_in, hi_in, w.data.tick_spacing, w.data.sqrt_price, Ok::<(i32, i32), Error>((p1.tick_lower_index, p1.tick_upper_index)))
+    &&& range_valid(p1.tick_lower_index as int, p1.tick_upper_index as int, w.data.tick_spacing as int)
+    &&& p1.whirlpool == w.k && p1.position_mint == mint
+}
+//@ struct instructions/open_position.rs OpenPosition
+//@ fn instructions/open_position.rs handler -> r as=open_position_handler tags=C18
+    requires old(ctx.accounts).whirlpool.data.tick_spacing > 0, price_ok(old(ctx.accounts).whirlpool.data.sqrt_price as int),
+    ensures
+        r is Ok ==> opened_ok(*old(ctx.accounts).whirlpool, old(ctx.accounts).position_mint.k, tick_lower_index, tick_upper_index, final(ctx.accounts).position.data),
+        r is Ok ==> !ext_required(old(ctx.accounts).whirlpool.data),
+        r is Ok ==> minted_one_and_sealed(old(ctx.accounts).position_mint.k, old(ctx.accounts).position_token_account.k),
+//@ rewrite /emit!\(PositionOpened \{/ => /emit_position_opened(PositionOpened {/
+//@ end
+//@ struct instructions/open_bundled_position.rs OpenBundledPosition
+//@ fn instructions/open_bundled_position.rs handler -> r as=open_bundled_position_handler tags=C18
+    requires old(ctx.accounts).whirlpool.data.tick_spacing > 0, price_ok(old(ctx.accounts).whirlpool.data.sqrt_price as int),
+    ensures
+        r is Ok ==> opened_ok(*old(ctx.accounts).whirlpool, old(ctx.accounts).position_bundle.data.position_bundle_mint, tick_lower_index, tick_upper_index, final(ctx.accounts).bundled_position.data), //# C18
+        r is Ok ==> !ext_required(old(ctx.accounts).whirlpool.data), //# C18
+        r is Ok ==> authority_rule(old(ctx.accounts).position_bundle_token_account.data.owner, copt(old(ctx.accounts).position_bundle_token_account.data.delegate), old(ctx.accounts).position_bundle_token_account.data.delegated_amount,
+            *old(ctx.accounts).position_bundle_authority.info.key, old(ctx.accounts).position_bundle_authority.info.is_signer), //# C04
+        // the bundle's bitmap marks exactly one more open position: this index
+        r is Ok ==> bundle_index < 256 && !bundle_open(old(ctx.accounts).position_bundle.data.position_bitmap, bundle_index as int)
+            && (forall|j: int| 0 <= j < 256 ==> #[trigger] bundle_open(final(ctx.accounts).position_bundle.data.position_bitmap, j) == (j == bundle_index || bundle_open(old(ctx.accounts).position_bundle.data.position_bitmap, j))), //# C18
+//@ rewrite /emit!\(PositionOpened \{/ => /emit_position_opened(PositionOpened {/
 //@ end
 }
